@@ -62,6 +62,20 @@ def run(chk):
         s_sum = float(m.score(model, [pooled]))
         if not abs(s_sum - score) <= tol:
             chk.fail("scoring a probe given as several statistics (%.12g) differs from scoring their sum (%.12g)" % (score, s_sum), ctx)
+        # score, train the SAME machine object further, score again: the second score is that of a fresh machine holding the trained U, V, D
+        if i % 5 == 2:
+            import copy as _copy
+            mt_ = _copy.deepcopy(m)
+            mt_.em_iterations = 1
+            tr_ = [fa.gen_stats(r, ubm, 2) for _ in range(2)]
+            mt_.fit([q_ for cl_ in tr_ for q_ in cl_], np.array([0, 0, 1, 1]))
+            mf_ = fa.make_machine(kind, ubm, rU, rV, U=np.array(mt_.U), V=np.array(mt_.V) if kind == "jfa" else None, Dv=np.array(mt_.D))
+            s_after, s_fresh = float(mt_.score(model, probe)), float(mf_.score(model, probe))
+            x_after, x_fresh = np.asarray(mt_.estimate_x(probe), dtype=float), np.asarray(mf_.estimate_x(probe), dtype=float)
+            chk.count(1, key=("score, train, score again", kind))
+            if not (abs(s_after - s_fresh) <= 1e-9 * max(1.0, abs(s_fresh)) and np.allclose(x_after, x_fresh, rtol=1e-9, atol=1e-12)):
+                chk.fail("%s: after the machine was trained further (it had scored before) score / estimate_x differ from those of a fresh machine with the same U, V, D: %.12g vs %.12g"
+                         % (kind, s_after, s_fresh), dict(ctx, history="score, fit, score"))
         # the probe as another kind of sequence than a list: the same statistics, the same score
         if nprobe > 1:
             try:
